@@ -62,7 +62,9 @@ def run(ck, ctx):
 
         def pred_same(e):
             e = strip(e)
-            return e[0] == "call" and e[1].endswith("BuildId as std::cmp::PartialEq>::eq") and any("next_id" in repr(y) for y in e[2]) and any("input" in repr(y) for y in e[2])
+            if e[0] == "call" and (e[1].endswith(("BuildId as std::cmp::PartialEq>::eq", "BuildId as std::cmp::PartialEq>::ne")) or e[1] == "std::cmp::PartialEq::ne") and any("next_id" in repr(y) for y in e[2]) and any("input" in repr(y) for y in e[2]):
+                return "neg" if e[1].endswith("::ne") else True
+            return False
 
         g_same = C.bool_gate_edges(ctx, b, pred_same)
         g_diff = {(y, [l for l in Q.bool_edges(b.blocks[y]["term"]) if l != lab][0]) for y, lab in g_same}
